@@ -409,12 +409,19 @@ func runC16(c *runCtx) {
 	}
 	// an execute-silent started by a POST may outlast the settle horizon (its process just sits there for
 	// seconds): the actions chained behind it only run when it ends
+	atRest := true
 	for k := 0; k < 20 && ok && !r.done; k++ {
 		alive := false
 		for _, p := range r.os.Snapshot() {
 			alive = alive || p.Alive
 		}
-		if !alive {
+		if !alive && (r.t == nil || len(r.t.serverInputChan) == 0) {
+			if k > 0 {
+				// the command has just ended (possibly in the last window of the wait above): what was queued
+				// behind it is being worked off now
+				atRest, _ = r.settle(60)
+				atRest = atRest && (r.t == nil || len(r.t.serverInputChan) == 0)
+			}
 			break
 		}
 		r.settle(10)
@@ -556,7 +563,9 @@ func runC16(c *runCtx) {
 		}
 	}
 	got := st.Query
-	if stripTyped(got) != wantQuery && len(c.viol) == 0 {
+	if !atRest {
+		c.count("settle.busy_at_end", 1)
+	} else if stripTyped(got) != wantQuery && len(c.viol) == 0 {
 		c.violate("c16.actions", "query after all requests is %q; the authorised valid POSTs answered 200 should have produced exactly %q (each once, in order)", got, wantQuery)
 	}
 	// a non-local listener never runs process-executing actions from the network … (none are sent; the key binding may)
